@@ -74,6 +74,8 @@ def namespace(c, args):
 def to_py(v):
     if isinstance(v, dict) and 'list' in v:
         return [to_py(x) for x in v['list']]
+    if isinstance(v, dict) and 'dict' in v:
+        return dict((k, to_py(x)) for k, x in v['dict'].items())
     if isinstance(v, str):
         return float(Fraction(v))
     return v
